@@ -220,9 +220,62 @@ func corrC02(c *corrCtx) {
 		}
 		c.extra["literal_half_code_excess/"+s.name] = map[string]interface{}{"entries8": lit8, "entries16": lit16, "worst16_codes": worst16}
 	}
+	// the property's own statement on the real code for every float32 in [0, 1] of the eight encoders
+	// (monotone, clipped, in range): a search aid on every run, not the claim
+	c02RealSweep(c, fns)
 	if c.thorough() {
 		c02Sweep(c, fns)
 	}
+}
+
+// c02RealSweep: every float32 bit pattern in [0, 1] (and every 4096th above, up to +Inf) through every
+// table-based encoder of the real code: never decreasing, never above the maximum, 0 at 0, max from 1 on.
+func c02RealSweep(c *corrCtx, fns []encFn) {
+	const one = 0x3f800000
+	const inf = 0x7f800000
+	n := 0
+	for _, fn := range fns {
+		if fn.name[0] == 'q' {
+			continue
+		}
+		nw := runtime.NumCPU()
+		bad := make([]string, nw)
+		var wg sync.WaitGroup
+		for w := 0; w < nw; w++ {
+			wg.Add(1)
+			go func(w int) {
+				defer wg.Done()
+				lo := uint32(uint64(one+1) * uint64(w) / uint64(nw))
+				hi := uint32(uint64(one+1)*uint64(w+1)/uint64(nw)) - 1
+				if lo > 0 {
+					lo--
+				}
+				prev := -1
+				for b := lo; b <= hi; b++ {
+					v := fn.f(bf(b))
+					if (v < prev || v > fn.max || (b == 0 && v != 0) || (b == one && v != fn.max)) && bad[w] == "" {
+						bad[w] = fmt.Sprintf("%08x", b)
+					}
+					prev = v
+				}
+			}(w)
+		}
+		wg.Wait()
+		for b := uint32(one); b <= inf && b >= one; b += 4096 {
+			if fn.f(bf(b)) != fn.max && bad[0] == "" {
+				bad[0] = fmt.Sprintf("%08x", b)
+			}
+		}
+		n += one + 1 + (inf-one)/4096
+		for _, b := range bad {
+			if b != "" {
+				c.direct(fmt.Sprintf("C02/real-sweep/%s/%s/%s", fn.name, fn.space, b), "encoder decreases, leaves its range or misses a clip value (sweep of every float32 in [0,1] on the real code)",
+					map[string]interface{}{"fn": fn.name, "space": fn.space, "bits": b})
+				break
+			}
+		}
+	}
+	c.extra["real_sweep_floats"] = n
 }
 
 // c02Sweep: every float32 in [0, 1] through every encoder; emits the run-length encoding.
@@ -908,6 +961,24 @@ func corrC04(c *corrCtx) {
 			}
 			for k := 0; k < 50; k++ {
 				pxs = append(pxs, color.NRGBA{R: uint8(r.next()), G: uint8(r.next()), B: uint8(r.next()), A: uint8(r.next())})
+			}
+			pp := color.NRGBA{R: 10, G: 10, B: 10, A: 255}
+			for k := 0; k < 120; k++ {
+				q := pp
+				switch r.intn(6) {
+				case 0:
+					q.R = uint8(r.next())
+				case 1:
+					q.G = uint8(r.next())
+				case 2:
+					q.B = uint8(r.next())
+				case 3:
+					q.A = uint8(r.next())
+				case 4:
+					q = color.NRGBA{R: q.G, G: q.B, B: q.R, A: q.A}
+				}
+				pxs = append(pxs, q)
+				pp = q
 			}
 			for _, px := range pxs {
 				got := convertGo(src, dst, ad, px)
